@@ -53,6 +53,7 @@ def library():
     for name, body in (("intkey", "2024: rewritten"), ("boolkey", "on: push"), ("nullkey", "~: x"), ("datekey", "2020-01-01: released"),
                        ("floatkey", "1.5: v"), ("upperkey", "Author: Me\nDATE: today")):
         add("frontmatter", name, ["---"] + body.split("\n") + ["---", "", "# H"], toponly=True, silent=True)
+    add("frontmatter", "bigint", ["---", "a: 0x" + "f" * 5000, "b: [0x" + "f" * 5000 + "]", "c: 1", "---", "", "# H"], toponly=True)
     add("frontmatter", "datelist", ["---", "a: [2020-01-01]", "b: {c: 2020-01-01}", "---"], toponly=True, silent=True)
     add("frontmatter", "unclosed", ["---", "a: 1", "", "text"], toponly=True, silent=True)
     # directive options
@@ -68,6 +69,8 @@ def library():
     add("directive", "run_error", ["```{csv-table}", ":widths: x", "", "a,b", "```"])
     add("directive", "body_error", ["```{list-table}", "", "not a list", "```"])
     add("directive", "toctree_missing", ["```{toctree}", "nosuchdoc", "```"], front="sphinx")
+    add("directive", "unmockable", ["```{meta}", ":description: x", "```"])
+    add("directive", "lineblock_blank", ["```{line-block}", "", "", "foo", "  bar", "```"], silent=True)
     add("directive", "evalrst_bad", ["```{eval-rst}", ".. nosuch::", "", "`x", "```"])
     # roles
     add("role", "unknown", ["{nosuchrole}`x`"])
@@ -102,10 +105,13 @@ def library():
     # links
     add("link", "long_destination", ["[a](" + "x" * 300 + ") and [b](" + "y/" * 200 + "z.md)"], silent=True)
     add("link", "bad_ipv6", ["[a](http://[x) and <http://[y>"], silent=True)
+    add("link", "scheme_bad_ipv6", ["[a](wiki://[x) and <wiki://[y>"])
     add("link", "missing_anchor", ["[a](#nosuchanchor)"], front="docutils")
     add("link", "missing_doc", ["[a](nosuchdoc.md) and <project:nosuch.md>"], silent=True)
     # structure
     add("structure", "hr_first_in_container", ["> ---", "", "- ***"], silent=True)
+    add("structure", "hr_first_in_topic", ["```{topic} T", "***", "", "text", "```", "", "```{sidebar} S", "___", "", "text", "```"], silent=True, toponly=True)
+    add("structure", "footnote_superscript", ["a[^²] b[^1] c[^x]", "", "[^²]: p", "", "[^1]: q", "", "[^x]: r"], silent=True)
     add("structure", "ragged_table", ["| a | b |", "|---|---|", "| 1 |", "| 1 | 2 | 3 |"], silent=True)
     add("structure", "deep_heading", ["###### h6"], silent=True)
     add("structure", "dup_footnote", ["[^q1]: a", "", "[^q1]: b", "", "[^nosuchfn]"], silent=True)
@@ -148,11 +154,12 @@ def conf_docutils(d: Path):
     (d / "corrupt.inv").write_bytes(b"# Sphinx inventory version 2\n# Project: x\n# Version: 1\n# The remainder is compressed\nnot zlib")
     return {"myst_enable_extensions": EXTS, "myst_substitutions": {"circ_a": "{{ circ_b }}", "circ_b": "{{ circ_a }}"},
             "myst_inventories": {"missing": ["https://x/", str(d / "nosuch.inv")], "corrupt": ["https://x/", str(d / "corrupt.inv")]},
-            "myst_heading_anchors": 2}
+            "myst_heading_anchors": 2, "myst_url_schemes": URL_SCHEMES}
 
 
+URL_SCHEMES = {"http": None, "https": None, "mailto": None, "ftp": None, "wiki": {"url": "https://w/{{path}}", "title": "W {{uri}}"}}
 CONF_SPHINX = {"myst_enable_extensions": EXTS, "myst_substitutions": {"circ_a": "{{ circ_b }}", "circ_b": "{{ circ_a }}"},
-               "myst_heading_anchors": 2}
+               "myst_heading_anchors": 2, "myst_url_schemes": URL_SCHEMES}
 
 
 def _write(d: Path, files):
@@ -173,7 +180,10 @@ def run_docutils(case):
     _write(d, files)
     (d / "doc.md").write_text(text)
     try:
-        tree, warns = docutils_doctree(text, conf_docutils(d), source_path=str(d / "doc.md"))
+        conf = conf_docutils(d)
+        if case.get("suppress"):
+            conf["myst_suppress_warnings"] = ["myst", "ref"]
+        tree, warns = docutils_doctree(text, conf, source_path=str(d / "doc.md"))
         res = {"outcome": "returned", "msgs": len([w for w in warns if w["level"] in ("WARNING", "ERROR", "SEVERE")]),
                "markers": sorted(set(int(m) for m in re.findall(r"MARKER(\d+)x", tree.astext())))}
     except BaseException as e:  # noqa: BLE001
@@ -186,15 +196,16 @@ def run_docutils(case):
 def run_sphinx_batch(job):
     """one Sphinx project with many cases as documents"""
     from ..sphinx_runner import run_docs
-    wd, cases = job
-    d = Path(wd) / f"sp{os.getpid()}_{cases[0]['id']}"
+    wd, cases = job[0], job[1]
+    suppress = len(job) > 2 and job[2]
+    d = Path(wd) / f"sp{os.getpid()}_{cases[0]['id']}{'s' if suppress else ''}"
     docs, extra = {}, {}
     for c in cases:
         name = f"case{c['id']}"
         text, files = build(c["doc"], name)
         docs[name] = text
         extra.update(files)
-    res = run_docs(d, docs, CONF_SPHINX, extra_files=extra)
+    res = run_docs(d, docs, {**CONF_SPHINX, **({"suppress_warnings": ["myst", "ref"]} if suppress else {})}, extra_files=extra)
     out = []
     for c in cases:
         r = res[f"case{c['id']}"]
@@ -207,13 +218,13 @@ def run_sphinx_batch(job):
     return out
 
 
-def judge(ctx, leg, front, doc, o):
+def judge(ctx, leg, front, doc, o, suppressed=False):
     lib = library()
     case = {"leg": leg, "front_end": front, "faults": [list(k) + [c] for k, c in doc], "markdown": o["text"]}
     if o["outcome"] != "returned":
         ctx.violation(f"{front}: uncaught {o['exc']} for faults {[f'{k[0]}/{k[1]} in {c}' for k, c in doc]}", case)
         return
-    need = sum(1 for k, _ in doc if not lib[tuple(k)]["silent"])
+    need = 0 if suppressed else sum(1 for k, _ in doc if not lib[tuple(k)]["silent"])
     if o["msgs"] < need:
         ctx.violation(f"{front}: {need} malformed construct(s) {[f'{k[0]}/{k[1]}' for k, c in doc]} but only {o['msgs']} message(s) reported", case)
         return
@@ -366,7 +377,22 @@ def run(ctx):
             ctx.count(("sp", repr(c["doc"])))
             ctx.traces_validated += 1
             judge(ctx, "R", "sphinx", c["doc"], o)
-    ctx.leg("R", docutils=len(du), sphinx=len(sp), faults=len(allf))
+    # every single fault once more with the MyST warnings suppressed (a suppressed warning has no node: code that
+    # uses the returned node must cope with None); only totality and continued processing are judged
+    single = [c for c in cases if len(c["doc"]) == 1]
+    sdu = [{**c, "suppress": True} for c in single if all(lib[k]["front"] in ("both", "docutils") for k, _ in c["doc"])]
+    for c, o in zip(sdu, pmap(run_docutils, sdu, chunksize=32)):
+        ctx.count(("du-suppressed", repr(c["doc"])))
+        ctx.traces_validated += 1
+        judge(ctx, "R-suppressed", "docutils", c["doc"], o, suppressed=True)
+    ssp = [c for c in single if all(lib[k]["front"] in ("both", "sphinx") for k, _ in c["doc"])]
+    sb = [(str(ctx.wd / "docs"), ssp[i:i + 60], True) for i in range(0, len(ssp), 60)]
+    for (wd, cs, _), os_ in zip(sb, pmap(run_sphinx_batch, sb, procs=min(16, max(1, len(sb))), chunksize=1) if len(sb) >= 2 else [run_sphinx_batch(b) for b in sb]):
+        for c, o in zip(cs, os_):
+            ctx.count(("sp-suppressed", repr(c["doc"])))
+            ctx.traces_validated += 1
+            judge(ctx, "R-suppressed", "sphinx", c["doc"], o, suppressed=True)
+    ctx.leg("R", docutils=len(du), sphinx=len(sp), faults=len(allf), suppressed_docutils=len(sdu), suppressed_sphinx=len(ssp))
     ctx.extra["faults_planned"] = len(allf)
     ctx.extra["faults_injected"] = len(allf)
     ctx.extra["sites"] = sorted({k[0] for k in allf})
